@@ -1,5 +1,5 @@
 (* C09/Properties.v — property theorems only. Each is closed by a lemma of C09/Proofs.v. *)
-From Relic Require Import Base.Prelude Base.Enc Generated.C09_gen C09.Model C09.Proofs.
+From Relic Require Import Base.Prelude Base.Enc Generated.C09_gen C09.Model C09.Proofs C09.Upload C09.UploadProofs.
 
 (* ------------------------------------------------------------------ shared chunk library *)
 (* 1. a byte string has exactly one decomposition into full B-blocks followed by one short non-empty block, and it is
@@ -125,6 +125,89 @@ Theorem transport_invariant : forall (compress decompress : bytes -> bytes -> by
   forall upload advertised a, server_sees decompress (attempt_wire compress upload advertised a) = upload.
 Proof. exact C09.Proofs.server_sees_upload. Qed.
 
+(* ------------------------------------------------------------------ error path of an upload (C09/Upload.v) *)
+(* The bodies of compress, the goroutine of CompressRequest, DecompressRequest, the Middleware handler, buildRequest and
+   tarAddStream are translated by srcgen into programs (Generated/C09_gen.v); 13-18 say that each program, run against
+   ARBITRARY effects (every outcome of every call), does what its reference says. *)
+(* 13. compress: first failure wins — a failed setup, a failed copy (read error of the source or write error of the pipe)
+       or a failed Close is the result; Close (which terminates the encoded stream) happens only after a complete copy *)
+Theorem compress_returns_first_error : forall W (eff : Z -> list Z -> W -> Z * W) opq w,
+  run_prog eff opq compress_prog compress_prog_result w = spec_compress W eff w.
+Proof. exact C09.UploadProofs.compress_refines. Qed.
+(* 14. the goroutine closes the pipe with exactly compress's result (never a clean close after a failure) *)
+Theorem goroutine_closes_pipe_with_result : forall W (eff : Z -> list Z -> W -> Z * W) opq w,
+  run_prog eff opq creq_goroutine_prog creq_goroutine_prog_result w = spec_goroutine W eff w.
+Proof. exact C09.UploadProofs.goroutine_refines. Qed.
+(* 15. DecompressRequest installs the decoder exactly when decompress succeeded and returns its error *)
+Theorem decompress_request_guards_body : forall W (eff : Z -> list Z -> W -> Z * W) opq w,
+  run_prog eff opq dreq_prog dreq_prog_result w = spec_dreq W eff w.
+Proof. exact C09.UploadProofs.dreq_refines. Qed.
+(* 16. the middleware never hands a request it could not decode to the signing handler, otherwise exactly once *)
+Theorem middleware_refuses_undecodable : forall W (eff : Z -> list Z -> W -> Z * W) opq w,
+  snd (run_prog eff opq middleware_prog middleware_prog_result w) = snd (spec_middleware W eff opq w).
+Proof. exact C09.UploadProofs.middleware_refines. Qed.
+(* 17. buildRequest returns every failure, in particular of GetReader and CompressRequest (no request is sent) *)
+Theorem build_request_returns_errors : forall W (eff : Z -> list Z -> W -> Z * W) opq w,
+  run_prog eff opq br_prog br_prog_result w = spec_build W eff opq w.
+Proof. exact C09.UploadProofs.build_refines. Qed.
+(* 18. tarAddStream (every member of a zip upload): a failing or short member source is an error *)
+Theorem tar_member_error_returned : forall W (eff : Z -> list Z -> W -> Z * W) opq w,
+  run_prog eff opq taraddstream_prog taraddstream_prog_result w = spec_taradd W eff w.
+Proof. exact C09.UploadProofs.taradd_refines. Qed.
+(* 19. client and server select the same codec for every Content-Encoding value, and refuse the same values *)
+Theorem codec_sides_agree : forall enc, setup_kind enc = decompress_kind enc.
+Proof. exact C09.UploadProofs.codec_sides_agree. Qed.
+(* every pipe-backed transform (zip family, MSI, Mach-O, DMG) closes its pipe with the producer's error *)
+Theorem producers_close_with_error : producers_propagate_errors = true.
+Proof. reflexivity. Qed.
+
+(* 20. MAIN: for every stream codec that round-trips complete streams (library assumption, the only premise), every
+       advertised encoding list, every source (any data, any read sizes, failing or not after any number of bytes), every
+       point at which the reading side of the pipe goes away, and every value of the conditions left opaque: whatever the
+       signing handler gets to digest is the complete client-side stream, and the source did not fail *)
+Theorem upload_integrity : forall St enc_init enc_write enc_close dec,
+  codec_roundtrip St enc_init enc_write enc_close dec ->
+  forall opq adv src cut b,
+    server_view dec opq (client_wire St enc_init enc_write enc_close adv src cut) = SOk b ->
+    b = u_data src /\ u_fail src = 0.
+Proof. exact C09.UploadProofs.upload_integrity. Qed.
+(* 21. a source that fails (after any number of bytes) aborts the attempt under every encoding: the handler digests
+       nothing and the client's transport sees an error *)
+Theorem upload_fault_aborts : forall St enc_init enc_write enc_close dec,
+  codec_roundtrip St enc_init enc_write enc_close dec ->
+  forall opq adv src cut, u_fail src <> 0 ->
+    server_view dec opq (client_wire St enc_init enc_write enc_close adv src cut) = SErr /\
+    client_body_error (client_wire St enc_init enc_write enc_close adv src cut) <> 0.
+Proof. exact C09.UploadProofs.upload_fault_aborts. Qed.
+(* 22. with a reader that stays, the server's view equals the specification (full stream iff the source is healthy) —
+       hence it is the same under identity, gzip, snappy and after a 406 fallback, and the same as standalone signing *)
+Theorem upload_eq_spec : forall St enc_init enc_write enc_close dec,
+  codec_roundtrip St enc_init enc_write enc_close dec ->
+  forall opq adv src, server_view dec opq (client_wire St enc_init enc_write enc_close adv src (-1)) = spec_view src.
+Proof. exact C09.UploadProofs.upload_eq_spec. Qed.
+Theorem upload_encoding_independent : forall St enc_init enc_write enc_close dec,
+  codec_roundtrip St enc_init enc_write enc_close dec ->
+  forall opq1 opq2 adv1 adv2 src,
+    server_view dec opq1 (client_wire St enc_init enc_write enc_close adv1 src (-1)) =
+    server_view dec opq2 (client_wire St enc_init enc_write enc_close adv2 src (-1)).
+Proof. exact C09.UploadProofs.upload_encoding_independent. Qed.
+Theorem standalone_eq_spec : forall src, standalone_view src = spec_view src.
+Proof. exact C09.UploadProofs.standalone_spec. Qed.
+(* 23. inside doRequest: attempts whose stream fails surface as transport errors (transient or not as httperror.Temporary
+       says); the attempt whose response is accepted read its stream completely, under every failover history *)
+Theorem accepted_attempt_healthy : forall nbases retries enc ins t res s e c,
+  0 < nbases -> do_request nbases retries enc (map attempt_outcome ins) = (t, res) -> res = DrAccepted s e c ->
+  let a := nth (length t - 1) ins healthy_default in
+  u_fail (ai_src a) = 0 /\ ai_beh a = OStatus c.
+Proof. exact C09.UploadProofs.accepted_attempt_healthy. Qed.
+(* 24. the premise of 20-22 is satisfiable by a codec with real framing (a trailer-terminated kind standing for gzip, a
+       trailer-less kind standing for snappy-framed where every frame boundary is a valid end), so 20 holds for it outright *)
+Theorem framed_codec_roundtrips : codec_roundtrip fc2_state fc2_init fc2_write fc2_close fc2_dec.
+Proof. exact C09.UploadProofs.fc2_roundtrip. Qed.
+Theorem upload_integrity_framed : forall opq adv src cut b,
+  fc_server_view opq (fc_client_wire adv src cut) = SOk b -> b = u_data src /\ u_fail src = 0.
+Proof. exact (C09.UploadProofs.upload_integrity _ _ _ _ _ C09.UploadProofs.fc2_roundtrip). Qed.
+
 (* ------------------------------------------------------------------ non-vacuity *)
 Example merkle_three_phase_example :
   (* B = 4: a write that completes the buffer, then hashes a block directly, then saves a remainder *)
@@ -145,3 +228,17 @@ Example failover_example :
   ([(mkAtt 0 true, OStatus 503); (mkAtt 1 true, OStatus 406); (mkAtt 0 false, OConnTemp); (mkAtt 1 false, OStatus 200)],
    DrAccepted 1 false 200).
 Proof. reflexivity. Qed.
+(* a healthy 5-byte upload in reads of 2 bytes, and the same source failing after 3 bytes, under snappy and gzip *)
+Example upload_examples :
+  fc_server_view no_opaque (fc_client_wire [enc_snappy; enc_gzip] (mkUS [1; 2; 3; 4; 5] 0 [2; 2]) (-1)) = SOk [1; 2; 3; 4; 5] /\
+  fc_server_view no_opaque (fc_client_wire [enc_gzip] (mkUS [1; 2; 3; 4; 5] 0 [2; 2]) (-1)) = SOk [1; 2; 3; 4; 5] /\
+  fc_server_view no_opaque (fc_client_wire [enc_snappy] (mkUS [1; 2; 3] 5 [2; 2]) (-1)) = SErr /\
+  fc_client_wire [enc_snappy] (mkUS [1; 2; 3] 5 [2; 2]) (-1) = (enc_snappy, [1; 2; 0; 0; 0; 1; 2; 1; 1; 0; 0; 0; 3], Some 5) /\
+  fc_server_view no_opaque (fc_client_wire [] (mkUS [1; 2; 3] 5 [2; 2]) (-1)) = SErr.
+Proof. vm_compute. repeat split. Qed.
+(* what 13 and 20 exclude: with Close moved into a deferred closure that assigns the named result (the read error is
+   replaced by Close's nil), the same failing source is accepted by the server as a complete 3-byte stream *)
+Example deferred_close_variant_refuted :
+  fc_server_view no_opaque (fc_client_wire_with compress_prog_deferred_close 0 [enc_snappy] (mkUS [1; 2; 3] 5 [2; 2]) (-1)) = SOk [1; 2; 3] /\
+  fc_server_view no_opaque (fc_client_wire_with compress_prog_deferred_close 0 [enc_gzip] (mkUS [1; 2; 3] 5 [2; 2]) (-1)) = SOk [1; 2; 3].
+Proof. vm_compute. split; reflexivity. Qed.
